@@ -238,6 +238,19 @@ def t_rand_like(I, a, **kw):
     return t
 
 
+class NormalDist:
+    """torch.distributions.normal.Normal(loc, scale): sample(shape) is an ARBITRARY real tensor of shape
+    shape + broadcast(loc, scale).shape (the support of the normal law is all of R; its law is not modelled)"""
+
+    def __init__(self, I, loc, scale):
+        self.batch = tlib.bshape(I, lift(loc).shape, lift(scale).shape)[0]
+
+    def tpv_getattr(self, I, name):
+        if name == "sample":
+            return _IN().Builtin("Normal.sample", lambda I2, sample_shape=(): Tensor(uninterp_tensor("normal", _dims(I2, _shape_arg(I2, [sample_shape])) + list(self.batch), "real")))
+        raise Unsupported(f"Normal.{name}")
+
+
 def t_randn(I, *size, **kw):
     dims = _dims(I, _shape_arg(I, size))
     return Tensor(uninterp_tensor("randn", dims, "real"))
@@ -976,9 +989,11 @@ def install(I):
     B = IN.Builtin
     S = IN.StubModule
     TensorC = NativeClass("torch.Tensor")
+    FloatTensorC = NativeClass("torch.Tensor")
+    FloatTensorC.native_methods["__new__"] = lambda I2, cls, data: t_tensor(I2, data, dtype=float)
     tbl = {
         "Tensor": TensorC,
-        "FloatTensor": TensorC,
+        "FloatTensor": FloatTensorC,
         "LongTensor": TensorC,
         "Size": tuple,
         "tensor": B("tensor", t_tensor),
@@ -1060,6 +1075,7 @@ def install(I):
         "no_grad": NoGrad(),
         "set_grad_enabled": NoGrad(),
         "linalg": S("torch.linalg", {"norm": B("linalg.norm", t_norm), "solve": B("linalg.solve", t_solve)}),
+        "distributions": S("torch.distributions", {"normal": S("torch.distributions.normal", {"Normal": B("Normal", lambda I2, loc=0.0, scale=1.0, **kw: NormalDist(I2, loc, scale))})}),
     }
     tbl.update(TORCH_DTYPES)
     torch = S("torch", tbl)
